@@ -233,6 +233,17 @@ def check(col: Collector, tier: str):
                 "source's loop, so Count()/Sum()/Aggregate()/First() on the flattened sequence declare their accumulator or flag INSIDE the source's "
                 "loop and are evaluated once per outer element", sm.loc)
 
+    # two uses of one bound sequence (`good.First().pt() + good.Count()`, a self join `jets.Select(lambda j1: jets.Select(lambda j2: ..))`)
+    # denote two traversals.  as_sequence hands back the loop it cached for the same collection representation, so both uses are coded
+    # into ONE loop body and their combination is evaluated at the deeper of the two scopes.
+    asq = methods.get("as_sequence")
+    if asq is not None:
+        cached = [r for r in walk_no_nested(asq.node) if isinstance(r, ast.Return) and isinstance(r.value, ast.Name)
+                  and any(isinstance(d, ast.Call) and call_name(d) == "get_rep" and "_gc" in src(d.func) for d in defs_of(asq.node, r.value.id))]
+        col.add("C01.R18", asq.short, "each-use-of-a-bound-sequence-gets-its-own-loop", not cached,
+                "as_sequence returns the loop cached on the block for the same collection (self._gc.get_rep(rep)): a second traversal of a bound "
+                "sequence is merged into the first one's loop", asq.loc)
+
     check_loop_identity(col, repo, methods)
     check_accumulator(col, repo, methods)
     check_hoisted_init(col, repo)
